@@ -7,3 +7,4 @@ pub mod ods;
 pub mod xlsb;
 pub mod simple;
 pub mod vba;
+pub mod biff5;
